@@ -5,7 +5,7 @@ import re
 from pathlib import Path
 
 VERIF = Path(__file__).resolve().parent.parent
-FOUND_BY_CHECKS = {'9b7d799', 'a0e19e2', '5d33139', '5204afc', 'b4f39a8', 'd8599a0', 'fd1ba40', '12d63a4'}
+FOUND_BY_CHECKS = {'9b7d799', 'a0e19e2', '5d33139', '5204afc', 'b4f39a8', 'd8599a0', 'fd1ba40', '12d63a4', 'fab665f'}
 
 
 def fixed_table():
@@ -21,6 +21,7 @@ def fixed_table():
 def seeded_table():
     rows = ['| change | files | what it does (trigger) | caught by | how |', '|---|---|---|---|---|']
     tot = det = conc = 0
+    neut = []
     for mp in sorted((VERIF / 'seeded').glob('C*-m*/meta.json')):
         m = json.loads(mp.read_text())
         desc = ' '.join(m.get('description', '').split())
@@ -31,6 +32,11 @@ def seeded_table():
                 caught.append(ck.split(':')[0])
                 kinds = [k.get('signature') or k.get('kind') for k in r.get('replay_kinds', [])]
                 how.append(', '.join(dict.fromkeys(x for x in kinds if x))[:120])
+        if m.get('neutralised') and not caught:
+            neut.append(m['id'])
+            rows.append(f"| {m['id']} | {', '.join(x.replace('darr/', '') for x in m.get('files', []))} | {desc.replace('|', '/')} | "
+                        f"(no longer breaks the property) | {m['neutralised'].replace('|', '/')} |")
+            continue
         tot += 1
         if caught:
             det += 1
@@ -39,7 +45,9 @@ def seeded_table():
         rows.append(f"| {m['id']} | {', '.join(x.replace('darr/', '') for x in m.get('files', []))} | {desc.replace('|', '/')} | "
                     f"{', '.join(dict.fromkeys(caught)) or '**missed**'} | {'; '.join(h for h in how if h) or ''} |")
     head = (f"{det} of {tot} seeded changes are detected by the quick tier of the check(s) listed; {conc} with a concrete "
-            f"failing input as replay, the rest as a broken proof / correspondence (`no-failing-input-found`).\n\n")
+            f"failing input as replay, the rest as a broken proof / correspondence (`no-failing-input-found`)."
+            + (f" Not counted: {', '.join(neut)}, which stopped breaking their property when a later `fix:` commit closed the gap "
+               f"they went through (their own demonstration scripts now pass on the patched tree)." if neut else "") + "\n\n")
     return head + '\n'.join(rows)
 
 
